@@ -33,6 +33,7 @@ from .asttypes import (
     Expr,
     For,
     FunctionDef,
+    FormattedValue,
     GeneratorExp,
     Global,
     If,
@@ -40,6 +41,7 @@ from .asttypes import (
     Import,
     ImportFrom,
     Interactive,
+    Interpolation,
     JoinedStr,
     Lambda,
     List,
@@ -1590,6 +1592,23 @@ def _put_slice_Tuple_elts(
         elif PYGE14:
             if not is_delimited and pfield and pfield.name == 'type' and any(e.__class__ is Starred for e in fst_body):  # if putting Starred to unparenthesized ExceptHandler.type Tuple then parenthesize it
                 need_par = True
+
+        if not is_delimited and any(e.__class__ is Lambda for e in fst_body):  # bare Lambda element of unparenthesized Tuple in FormattedValue/Interpolation value needs pars, same as a single element put
+            s = self
+
+            while pf := s.pfield:
+                s = s.parent
+
+                if (s_cls := s.a.__class__) in (FormattedValue, Interpolation):
+                    if pf.name == 'value':
+                        for e in fst_body:
+                            if e.__class__ is Lambda and not e.f.pars().n:
+                                e.f._parenthesize_grouping()
+
+                    break
+
+                if s_cls not in ASTS_LEAF_EXPR or s._is_atom(pars=True, always_enclosed=True):
+                    break
 
     # normal stuff
 
